@@ -171,6 +171,15 @@ func literal(j J) string {
 			parts = append(parts, literal(x))
 		}
 		return "[" + strings.Join(parts, ", ") + "]"
+	case "S":
+		var parts []string
+		for _, x := range jlist(j[1]) {
+			parts = append(parts, literal(x))
+		}
+		if len(parts) == 0 {
+			return "set()"
+		}
+		return "{" + strings.Join(parts, ", ") + "}"
 	case "O":
 		var a J
 		json.Unmarshal(j[1], &a)
@@ -220,6 +229,9 @@ func observe(o py.Object, ids map[py.Object]int) string {
 		}
 		return "(" + strings.Join(parts, ",") + ")"
 	case *py.Set:
+		if k, ok := ids[o]; ok {
+			return "r" + strconv.Itoa(k)
+		}
 		var parts []string
 		py.Iterate(x, func(it py.Object) bool { parts = append(parts, observe(it, ids)); return false })
 		sort.Strings(parts)
@@ -260,13 +272,13 @@ func newWorker() *worker {
 
 // observation of one case
 type observation struct {
-	Log   []int  `json:"log"`
-	Exc   string `json:"exc"` // "" | class | panic:<site> | timeout
+	Log   []int    `json:"log"`
+	Exc   string   `json:"exc"` // "" | class | panic:<site> | timeout
 	Bases []string `json:"-"`
-	Val   string `json:"val,omitempty"`
-	Env   string `json:"env,omitempty"`
-	Heap  string `json:"heap,omitempty"`
-	Dump  string `json:"dump,omitempty"`
+	Val   string   `json:"val,omitempty"`
+	Env   string   `json:"env,omitempty"`
+	Heap  string   `json:"heap,omitempty"`
+	Dump  string   `json:"dump,omitempty"`
 }
 
 var stmtNames = []string{"a", "b", "c", "i", "j", "k", "m", "n", "p", "q", "x", "y", "z"}
@@ -318,7 +330,7 @@ func (w *worker) run(c *Case) (*observation, error) {
 	}
 	ids := map[py.Object]int{}
 	for _, e := range ents {
-		if t := jtag(e.j); t == "l" || t == "O" {
+		if t := jtag(e.j); t == "l" || t == "O" || t == "S" {
 			ids[vl.Items[e.id]] = e.id
 		}
 	}
@@ -372,6 +384,16 @@ func (w *worker) run(c *Case) (*observation, error) {
 					parts[i] = observe(it, ids)
 				}
 				heap = append(heap, fmt.Sprintf("%d=[%s]", e.id, strings.Join(parts, ",")))
+			case "S":
+				st, _ := vl.Items[e.id].(*py.Set)
+				if st == nil {
+					heap = append(heap, fmt.Sprintf("%d=?", e.id))
+					continue
+				}
+				var parts []string
+				py.Iterate(st, func(it py.Object) bool { parts = append(parts, observe(it, ids)); return false })
+				sort.Strings(parts)
+				heap = append(heap, fmt.Sprintf("%d=S{%s}", e.id, strings.Join(parts, ",")))
 			case "O":
 				a, err := py.GetAttrString(vl.Items[e.id], "a")
 				if err != nil {
